@@ -237,6 +237,20 @@ Theorem add_trait_calls_once_iff_matched : forall (h hrun : heap) R H s x f H' c
 Proof. exact add_trait_calls. Qed.
 Print Assumptions add_trait_calls_once_iff_matched.
 
+(* who is called, for every step of such a history: a step that fires a slot (scalar change, link reassignment,
+   container mutation, add_trait -> the object's trait_added) calls handler k exactly once iff a live registration of k
+   matches the slot on the heap as it is at that moment; registrations, removals and re-definitions call nobody *)
+Theorem history_steps_call_once_iff_matched : forall d R c d1 ob k,
+  dstate_inv d R -> wfH (st_hooks (d_st d)) -> admissible3 (d_heap d) R c ->
+  dstep d (dop_of3 c) = (d1, ob) ->
+  match slot_of3 c with
+  | Some sg => ncalls k (o_calls ob) <= 1 /\
+               (ncalls k (o_calls ob) = 1 <-> exists g x, In (k, g, x) R /\ l_matched (d_heap d) g x sg = true)
+  | None => o_calls ob = []
+  end.
+Proof. exact cstep3_calls. Qed.
+Print Assumptions history_steps_call_once_iff_matched.
+
 (* ---------- non-vacuity ---------- *)
 (* object 0 has kids = list 5 = [1; 2; 3], f = 1, g = 2; objects 1, 2 have `value` (field 2), object 3
    has not.  Fields: 2 value, 3 f, 4 g, 5 kids, 9 nonexist. *)
@@ -352,7 +366,8 @@ Proof.
 Qed.
 
 (* non-vacuity with add_trait: object 0 observes the optional, not yet defined trait 9 and below it `value`; nothing is
-   hooked on object 1 until the trait is added holding object 1; then the handler follows object 1; the removal
+   hooked on object 1 until the trait is added holding object 1; then the handler follows object 1, also after the
+   trait has been re-defined with add_trait (no trait_added, the hooks stay); the removal
    succeeds on the new heap and leaves nothing *)
 Definition g_opt9_value := G (NNamed 9 true true) [g_value].
 Example ex_added_unreachable : forall ch, avisits ex_heap 0 9 ch 1 = false.
@@ -367,11 +382,12 @@ Qed.
 Example dyn_add_trait_history_nontrivial :
   let d0 := mkD ex_heap s0 in
   let ops := [C2 (C1 (CReg 0 7 0 g_opt9_value)); C2 (C1 (CChange 1 2)); CAdd 0 9 [1];
-              C2 (C1 (CChange 1 2)); C2 (C1 (CUnreg 0 7 0 g_opt9_value)); C2 (C1 (CChange 1 2))] in
+              C2 (C1 (CChange 1 2)); CReAdd 0 9 []; C2 (C1 (CChange 1 2));
+              C2 (C1 (CUnreg 0 7 0 g_opt9_value)); C2 (C1 (CChange 1 2))] in
   dstate_inv d0 [] /\ admissible_run3 d0 [] ops /\
   let '(d', R', tr) := crun3 d0 [] ops in
   R' = [] /\ map (fun p => (o_out (snd p), length (o_calls (snd p)))) tr
-             = [(None, 0); (None, 0); (None, 0); (None, 1); (None, 0); (None, 0)].
+             = [(None, 0); (None, 0); (None, 0); (None, 1); (None, 0); (None, 1); (None, 0); (None, 0)].
 Proof.
   split; [|split].
   - split; [split; [intros o; reflexivity|split; [intros; reflexivity|intros ? ? ? []]]|split; reflexivity].
